@@ -27,10 +27,25 @@ def ehloKeys (chunk : Bytes) : Option (List Bytes) :=
 def checkExt (tls : String) (innerEhlo : Bytes) (exts : List (Bytes × String)) : List String :=
   if tls != "ok" then [] else
   match ehloKeys innerEhlo with
-  | none => []
+  | none =>
+    -- the EHLO sent inside TLS was refused (the client falls back to HELO): no capability at all has been negotiated
+    -- inside TLS, whatever the plaintext EHLO reply offered
+    if innerEhlo.head? == some 53 && exts.any (fun (_, r) => r.startsWith "true")
+    then ["C10 a capability learned in plaintext is still reported after the EHLO inside TLS was refused"] else []
   | some keys =>
     if exts.all (fun (n, r) => (r.startsWith "true") == keys.contains (toUpper n) || !(r.startsWith "true" || r.startsWith "false")) then []
     else ["C10 a capability query inside TLS was not answered from the EHLO reply received inside TLS"]
+
+/-- the same rule seen on the wire: when the EHLO sent inside TLS was refused, no extension has been negotiated inside
+    TLS, so MAIL and RCPT lines written there carry no parameter (the plaintext capability list is not to be trusted) -/
+def checkNoParams (tls : String) (innerEhlo innerWritten : Bytes) : List String :=
+  if tls != "ok" || innerEhlo.head? != some 53 then [] else
+  if (linesOf innerWritten).any (fun l =>
+      (verbOf l == "MAIL".b || verbOf l == "RCPT".b) &&
+      (match (l.dropWhile (· != 62)).drop 1 with      -- what follows '>'
+       | [] => false
+       | rest => rest.any (fun b => b != 13 && b != 10 && b != 32)))
+  then ["C10 a parameter of an extension offered only in plaintext was sent inside TLS after the EHLO there was refused"] else []
 
 /-- `results`: the constructor's / SendMail's result first, then one per later call; `envelopeCall i` says whether
     the i-th later call carries envelope, credentials or content (MAIL, RCPT, DATA, AUTH, VRFY) -/
